@@ -1,10 +1,11 @@
 #!/usr/bin/env python3
-"""Regression run of the seeded changes: apply seeded/<name>/patch.diff to /repo, run the quick
-check of the property it breaks (or the checks given), undo the patch, record the outcome in
-seeded/<name>/meta.json under "recheck" (the first evaluation stays under "checks").
+"""Regression run of the seeded changes: apply seeded/<name>/patch.diff to a scratch worktree of /repo
+(/tmp/wt/recheck, created on demand), run the quick check of the property it breaks (or the checks
+given) against that worktree (VERIF_REPO), record the outcome in seeded/<name>/meta.json under
+"recheck" (the first evaluation stays under "checks").  /repo itself and the registered evidence
+files are not touched.  Remove the worktree afterwards: git -C /repo worktree remove --force /tmp/wt/recheck
 
 usage: recheck_seeded.py [--all | <name> [<check>...]]
-Never run while anything else builds from /repo (the patch is applied to its working tree).
 """
 import sys, os, json, subprocess, time, glob
 
@@ -17,24 +18,36 @@ def sh(cmd, cwd=None, timeout=7200):
     return p.returncode, p.stdout
 
 
+WT = "/tmp/wt/recheck"
+
+
+def ensure_worktree():
+    if not os.path.isdir(WT):
+        os.makedirs(os.path.dirname(WT), exist_ok=True)
+        rc, o = sh(f"git -C /repo worktree add --detach {WT} HEAD")
+        assert rc == 0, o
+    sh("git checkout -- . && git clean -fdq -- src macros tests", cwd=WT)
+    rc, head = sh("git -C /repo rev-parse HEAD")
+    sh(f"git checkout -q --detach {head.strip()}", cwd=WT)
+
+
 def recheck(name, checks):
     d = os.path.join(SEEDED, name)
     meta = json.load(open(os.path.join(d, "meta.json")))
     checks = checks or [meta["property"]]
-    rc, st = sh("git status --porcelain -- src macros", cwd="/repo")
-    assert st.strip() == "", "/repo has uncommitted source changes"
-    rc, o = sh(f"git apply {d}/patch.diff", cwd="/repo")
+    ensure_worktree()
+    rc, o = sh(f"git apply {d}/patch.diff", cwd=WT)
     assert rc == 0, o
     res = {}
     try:
         for c in checks:
             t0 = time.time()
-            rc, o = sh(f"./check {c}", cwd=VERIF)
+            rc, o = sh(f"VERIF_REPO={WT} ./check {c}", cwd=VERIF)
             lines = [l for l in o.splitlines() if l.startswith(("VIOLATION", "INCONCLUSIVE"))]
             detail = [l[:400] for l in o.splitlines() if l.startswith("violation:")][:1]
             res[c] = {"exit": rc, "verdict_lines": lines[:2], "first_violations": detail, "wall_s": round(time.time() - t0, 1)}
     finally:
-        sh("git checkout -- .", cwd="/repo")
+        sh("git checkout -- .", cwd=WT)
     meta["recheck"] = res
     first = meta.get("detected_by", [])
     meta["detected_by_now"] = [c for c, r in res.items() if r["exit"] == 1]
